@@ -3184,7 +3184,7 @@ class Set(Collection):
             if in_added: setdata.added.remove(item)
             else: setdata.removed.add(item)
         def undo_func():
-            for obj, in_removed, was_modified_earlier in undo:
+            for obj, in_added, was_modified_earlier in undo:
                 setdata = obj._vals_[attr]
                 setdata.add(item)
                 if setdata.count is not None: setdata.count += 1
